@@ -109,10 +109,11 @@ type FuncVC struct {
 	cloTotal    bool
 	cloWritesDone bool
 	curInstr    ssa.Instruction
+	freshVals   map[ssa.Value]bool
 	cellConst   map[*ssa.FreeVar]Term
 	closureOf   map[string]*ssa.Function
 	closureMC   map[string]*ssa.MakeClosure
-	escapes     map[*ssa.Alloc][]ssa.Instruction
+	escapes     map[ssa.Value][]ssa.Instruction
 	breach      map[*ssa.BasicBlock]map[*ssa.BasicBlock]bool
 	assignsOpaque bool
 
@@ -150,7 +151,7 @@ func NewFuncVC(p *Prog, fn *ssa.Function, c *Contract) *FuncVC {
 		loopOf: map[*ssa.BasicBlock]*loopInfo{}, nonNil: map[ssa.Value]bool{}, localAlloc: map[*ssa.Alloc]bool{},
 		debugRefs: map[string][]*ssa.DebugRef{}, typeIDs: map[string]int{}, boxDecl: map[string]bool{},
 		funcDecl: map[string]bool{}, oblSeq: map[string]int{}, abstracted: map[string]int{},
-		assumedUsed: map[string]bool{}, contractUse: map[string]bool{}, iterOf: map[ssa.Value]*iterInfo{}, logicUsed: map[string]bool{}, logTypes: map[string]types.Type{}, axiomDone: map[*Clause]bool{}, skolems: map[string][][]Term{}, funCache: map[string]string{}, escapes: map[*ssa.Alloc][]ssa.Instruction{}, cellConst: map[*ssa.FreeVar]Term{}, closureOf: map[string]*ssa.Function{}, closureMC: map[string]*ssa.MakeClosure{}}
+		assumedUsed: map[string]bool{}, contractUse: map[string]bool{}, iterOf: map[ssa.Value]*iterInfo{}, logicUsed: map[string]bool{}, logTypes: map[string]types.Type{}, axiomDone: map[*Clause]bool{}, skolems: map[string][][]Term{}, funCache: map[string]string{}, escapes: map[ssa.Value][]ssa.Instruction{}, cellConst: map[*ssa.FreeVar]Term{}, freshVals: map[ssa.Value]bool{}, closureOf: map[string]*ssa.Function{}, closureMC: map[string]*ssa.MakeClosure{}}
 	if c != nil {
 		vc.watches = c.Watches
 		vc.bv = c.Mode == "bv"
